@@ -44,6 +44,7 @@ func NewConnection(connection net.Conn, context Context) *Connection {
 // EncryptedWrite encrypts and writes bytes to the connection.
 // The method returns the number of written bytes and an error when writing failed.
 func (con *Connection) EncryptedWrite(b []byte) (int, error) {
+	verifWriteEnter(con)
 	var buffer bytes.Buffer
 	buffer.Write(b)
 	encrypted, err := con.getEncrypter().Encrypt(&buffer)
